@@ -5,6 +5,7 @@
 import NiftyVerif.Model.NewtonRe
 import NiftyVerif.Lemmas.CgReDescent
 import NiftyVerif.Lemmas.CgReSim
+import NiftyVerif.Lemmas.CgReAbs0
 
 namespace NiftyVerif.NewtonRe
 set_option linter.unusedSectionVars false
@@ -270,5 +271,18 @@ theorem cgOracleStatic_eq (base : CgRe.Cfg K) (pa pr : Bool) (ip : V → V → K
   have h2 := congrArg CgRe.Obs.info hs
   simp only [CgRe.SSt.obs, CgRe.Res.obs] at h1 h2
   rw [h1, h2]
+
+/-- with the minimiser's own residual bound (`resnorm` not pinned) the C15 conjugate gradient answers alike for
+    `absdelta=None` (eager, first iteration) and `absdelta=0.` (compiled): the oracle-insensitivity hypothesis of
+    `static_ncg_eq_eager` holds for the real inner solver whenever the Hessian is linear and self-adjoint -/
+theorem cgOracle_abs0 (base : CgRe.Cfg K) (ip : V → V → K) (nrm : V → K) (hessp : V → V → V)
+    (hip : Iter.SymmBilin ip) (hnn : ∀ a, 0 ≤ ip a a)
+    (hm : ∀ pos, Iter.Linear (K := K) (hessp pos)) (hsa : ∀ pos, CgRe.SelfAdj ip (hessp pos)) (m : K) (pos g : V) :
+    cgOracle base false false ip nrm hessp ⟨none, m⟩ pos g = cgOracle base false false ip nrm hessp ⟨some 0, m⟩ pos g := by
+  have h := CgRe.cgEager_abs0 (cgCfgOf base false false ⟨some 0, m⟩) ip nrm (hessp pos) g hip (hm pos) (hsa pos) hnn
+    rfl (Or.inr rfl) none
+  unfold cgOracle
+  rw [h]
+  rfl
 
 end NiftyVerif.NewtonRe
